@@ -169,8 +169,10 @@ class Ctx:
         ev["coverage"].update(self.notes)
         if os.environ.get("VERIF_NO_EVIDENCE"):   # mutant runs against scratch copies must not overwrite evidence
             return ev
-        (ROOT / "evidence").mkdir(exist_ok=True)
-        (ROOT / "evidence" / f"{self.pid}.json").write_text(json.dumps(ev, indent=1, default=str) + "\n")
+        # extras (X..: parts of the specification outside the listed properties) keep their evidence apart
+        folder = "evidence_extra" if self.pid.startswith("X") else "evidence"
+        (ROOT / folder).mkdir(exist_ok=True)
+        (ROOT / folder / f"{self.pid}.json").write_text(json.dumps(ev, indent=1, default=str) + "\n")
         return ev
 
 
